@@ -4,12 +4,14 @@
      check_spec : the observed outcome is the reference evaluator's            (property)
      check_impl : the observed outcome is what the evaluator under the listed-deviation switches
                   computes AND what the VM model computes on the dumped prototype (both ties)
+                  AND, for a program of the transcribed fragment, the dumped prototype is the one
+                  CC/CompModel.v's transcription of compile.go computes (frag_tie)
    A case the reference evaluator does not support is skipped altogether; a program on which only
    the VM model leaves its fragment (VUnsup/VFuel) keeps its reference comparison. *)
 From Coq Require Import Floats.
 From Coq Require Uint63.
 From GL Require Import Common.Bytes Lua.Syntax Lua.Num Lua.Values Lua.Eval Lua.Run Lua.LuaCases.
-From GL Require Import VMX.Machine VMX.VRun.
+From GL Require Import VMX.Machine VMX.VRun CC.CompModel.
 
 (* code words are written as primitive-integer literals (parsed natively) *)
 Definition w63 (l : list Uint63.int) : list Z := map Uint63.to_Z l.
@@ -44,9 +46,13 @@ Definition check_spec (c : vcase) : bool :=
 Definition check_impl (c : vcase) : bool :=
   match c with
   | VLua c => LuaCases.check_impl c
-  | VProg b p obs => LuaCases.check_impl (CProg b obs) && vm_ok p obs
+  | VProg b p obs => LuaCases.check_impl (CProg b obs) && vm_ok p obs && frag_tie b p
   | VVm p obs => vm_ok p obs
   end.
+
+(* the program lies in the fragment whose compilation is transcribed in CC/CompModel.v *)
+Definition check_infrag (c : vcase) : bool :=
+  match c with VProg b _ _ => tie_frag b | _ => false end.
 
 (* measured by the harness notes: how many VProg cases the VM model itself skips *)
 Definition check_vmskip (c : vcase) : bool :=
